@@ -24,6 +24,7 @@ SHAPES = [
     "addr-odd",
     "ctype-odd",
 ]
+# not in SHAPES (expensive): "big" - a body of about 400 KiB, for pushes larger than any socket buffer
 
 TAME_SHAPES = ["plain", "folded", "multipart", "crlf", "dot-lines", "empty-body"]
 
@@ -128,6 +129,8 @@ def build(shape, tok):
         hdr.append(b"Content-Language: en, (fr) de")
         hdr.append(b'Content-ID: <id"with"quotes@example.org>')
         hdr.append(b"Content-Description: desc with \"quotes\" and \\ backslash")
+    elif shape == "big":
+        body = [(b"%05d big body line " % i) + t.encode() + b" " + b"x" * 40 for i in range(6000)]
     else:
         raise ValueError(shape)
     out = nl.join(hdr) + nl + nl + nl.join(body)
